@@ -312,12 +312,16 @@ REFINED = [
     "(convert_base_pow_down_branch/_contract, convert_base_small_pos_contract, exact_when_fits)",
     "documented precision of with_base (max q with NewB^q <= B^p) on the specification side (with_base_precision_documented)",
     "TryFrom<f32/f64> for FBig<_,2> / Repr<2>: exact value, precision = bit_len(mantissa) (from_ieee_exact)",
+    "Repr::from_str_native on the plain form of the grammar ([sign] int [. frac] [@ scale], bases 2..36, either case): exactly the written "
+    "value, precision = number of written digits (parse_literal_exact)",
+    "Display (fmt_round, no precision/width) then from_str: equal value, all bases/modes/operands (print_parse_round_trip)",
 ]
 FRONTIER = [
-    "Repr::from_str_native: mirrored (Model/Text/Float.lean fromStrNativeRaw) and compared with the independent literal grammar "
-    "parseFloatSpec on every case at run time; model = grammar not yet a theorem (the integer parts go through the C07 parser, which is proved)",
-    "Repr::fmt_round / fmt_round_scientific: mirrored incl. width/padding; Display without width compared at run time with displaySpec "
-    "(positional expansion / roundInt of the rational value); not yet a theorem; print->parse round trip checked at run time only",
+    "Repr::from_str_native beyond the plain form: underscores, the base-specific markers (e b o h p), the hexadecimal form of base 2 and all "
+    "error cases are mirrored (Model/Text/Float.lean) and compared with the independent grammar parseFloatSpec on every case at run time; "
+    "model = grammar on all byte strings is not yet a theorem",
+    "Repr::fmt_round with a precision / width and fmt_round_scientific: mirrored incl. padding; Display with precision compared at run time "
+    "with displaySpec (roundInt of the rational value); not yet a theorem",
     "Context::convert_base small-negative-exponent branch: builder-float's reprDiv model (C03) + the single-rounding path divRoundLong of fix bd48ef9; no theorem here",
     "Context::convert_base large-exponent branch (ln/exp at doubled precision): not mirrored; every case judged by exact rational arithmetic "
     "in the harness (digits, < 1 ulp, side, truthful flag, exact when representable) — the branch does NOT meet the contract (2 findings)",
@@ -328,22 +332,24 @@ FRONTIER = [
 THEOREMS = ["Dashu.Props.C08." + t for t in [
     "convert_base_pow_up_branch", "convert_base_pow_up_contract", "ilog_exact_sound", "convert_base_pow_down_branch",
     "convert_base_pow_down_contract", "convert_base_small_pos_contract", "exact_when_fits", "with_base_precision_documented",
-    "from_ieee_exact"]]
+    "from_ieee_exact", "parse_literal_exact", "print_parse_round_trip"]]
 EXPLANATION = ("Partial. Proved for all bases, modes, precisions and operands: the three exact-evaluation branches of base conversion "
                "round the exact value (contract of C03: exact iff representable, else < 1 ulp on the mode's side, truthful flag); "
-               "the documented with_base precision; exactness of the f32/f64 import. The literal parser, the printers and the "
-               "print->parse round trip are executable mirrored models compared on every run with an independent grammar / rational "
-               "rounding specification and with the real code; the ln/exp conversion branch is judged per case by exact arithmetic.")
+               "the documented with_base precision; exactness of the f32/f64 import; the literal parser returns exactly the written "
+               "value with precision = digit count on the plain grammar form; Display then parse returns an equal number. The remaining "
+               "grammar forms (underscores, base markers, hex form, errors) and printing with precision/width are mirrored models compared "
+               "on every run with an independent grammar / rational rounding specification and with the real code; the ln/exp conversion branch is judged per case by exact arithmetic.")
 ASSUMPTIONS = ["the f32 coarse test of round_fract decides like the exact comparison (C10)",
                "core::fmt delivers precision/width/flags as documented",
                "dashu-ratio arithmetic used by the harness judge of the ln/exp branch is exact (C04)"]
 LEVEL_TEXT = ("PARTIAL. Machine-checked Lean 4 theorems, for every base >= 2, mode, precision >= 1 and operand: base conversion through the "
               "power-related and small-exponent branches returns repr_round of the exact value and therefore satisfies the rounding "
               "contract (exact whenever representable, otherwise < 1 ulp on the side the mode requires, truthful Exact/Inexact flag); "
-              "the documented precision of with_base; exact import of f32/f64. Not proved but executed against an independent "
-              "specification and the real code on every run: the float literal parser (grammar incl. all scale markers, hexadecimal "
-              "form, underscores, precision = number of written digits), Display/LowerExp/UpperExp with precision/width/+, print->parse "
-              "round trip, the division branch of base conversion. The large-exponent branch (ln/exp) is checked per case with exact "
+              "the documented precision of with_base; exact import of f32/f64; the literal parser yields exactly the written value with "
+              "precision = number of written digits on [sign] int [. frac] [@ scale] in every base 2..36; Display (no precision) followed "
+              "by parsing returns an equal number. Not proved but executed against an independent specification and the real code on every "
+              "run: the other grammar forms (base-specific markers, hexadecimal form, underscores, error cases), Display/LowerExp/UpperExp "
+              "with precision/width/+, the division branch of base conversion. The large-exponent branch (ln/exp) is checked per case with exact "
               "rational arithmetic; it violates the contract on representable inputs and at small precisions (recorded findings).")
 LEVEL_NOTE = ("Trusted: Lean kernel; axioms propext/Classical.choice/Quot.sound; the correspondence harness, its exact-arithmetic judge "
               "(dashu-ratio) and the generators (sampling); builder-float's rounding model/theorems (C03, C10) and builder-nt's log2 "
